@@ -190,13 +190,16 @@ def one(ctx, T, d, dims):
         try:
             for t in res.out:
                 base, scaled = t, tm.substitute(t, sub)
-                if t.op == 'call' and t.args[0] not in ('sqrt', 'fabs'):
-                    # uninterpreted libm function of a degree-0 argument: compare the arguments
+                cs = []
+                if shell(t, cs) and cs and (t.op == 'call' or (dr[i] == 0 and has_libm(t))):
+                    # t is a function (selects on comparisons with constants, uninterpreted libm calls) of the arithmetic
+                    # cores cs only - e.g. the clamped arc cosine select(c <= 1, select(c >= -1, acos(c), pi), 0): it is
+                    # invariant as soon as every core is, and cannot have a non-zero degree
                     if dr[i] != 0:
                         diffs.append(z3.BoolVal(True))
                         continue
-                    for a1, a2 in zip(base.args[1:], scaled.args[1:]):
-                        diffs.append(it1.ev(a1) != it2.ev(a2))
+                    for c in cs:
+                        diffs.append(it1.ev(c) != it2.ev(tm.substitute(c, sub)))
                     continue
                 diffs.append(it2.ev(scaled) != fac(dr[i]) * it1.ev(base))
         except modes.ModeError as e:
@@ -217,6 +220,46 @@ def one(ctx, T, d, dims):
     if res.ub:
         u = ctx.ob(d['id'] + ' [ub]', 'ub-side-condition', 'BIT', d['id'] + ': no undefined behaviour on any path')
         u.reason = 'possible UB: %s %s' % (res.ub[0][1], res.ub[0][2])
+
+
+def shell(t, acc):
+    """True when t is not itself an arithmetic expression but a select / comparison-with-constant / uninterpreted libm
+    shell around arithmetic cores, which are appended to acc (deduplicated by identity)"""
+    if not isinstance(t, tm.T):
+        return False
+    if t.op == 'select':
+        for a in t.args:
+            leaf(a, acc)
+        return True
+    if t.op == 'call' and t.args[0] not in ('sqrt', 'fabs'):
+        for a in t.args[1:]:
+            leaf(a, acc)
+        return True
+    return False
+
+
+def has_libm(t):
+    """does the shell of t contain an uninterpreted libm call (so that the generic real-arithmetic query cannot apply)?"""
+    if not isinstance(t, tm.T):
+        return False
+    if t.op == 'call' and t.args[0] not in ('sqrt', 'fabs'):
+        return True
+    if t.op == 'select':
+        return any(has_libm(a) for a in t.args[1:])
+    return False
+
+
+def leaf(t, acc):
+    if not isinstance(t, tm.T) or t.op in ('fc', 'ic'):
+        return
+    if t.op == 'fcmp':
+        for a in t.args[1:]:
+            leaf(a, acc)
+        return
+    if shell(t, acc):
+        return
+    if all(t is not c for c in acc):
+        acc.append(t)
 
 
 def homog_replay(ctx, w, d, da, dr, i):
